@@ -96,7 +96,7 @@ int main(int argc, char *argv[])
     int sk_fd, res;
     uint64_t proc_bytes = 0, msg_proc_bytes = 0;
     uint32_t udp_seq_num;
-    uint16_t msg_length, acf_msg_length;
+    uint16_t msg_length, acf_msg_length, pdu_length;
     uint8_t subtype, acf_type;
     uint64_t flag;
     uint8_t pdu[MAX_PDU_SIZE];
@@ -124,8 +124,13 @@ int main(int argc, char *argv[])
             goto err;
         }
 
+        pdu_length = res;
+
         // If UDP is used the packets starts with an encapsulation number
         if (use_udp) {
+            if (pdu_length < AVTP_UDP_HEADER_LEN) {
+                continue;
+            }
             udp_pdu = pdu;
             udp_seq_num = Avtp_Udp_GetEncapsulationSeqNo((Avtp_Udp_t *)udp_pdu);
             cf_pdu = pdu + AVTP_UDP_HEADER_LEN;
@@ -135,13 +140,27 @@ int main(int argc, char *argv[])
         }
 
         // Check if the packet is a control format packet (i.e. NTSCF or TSCF)
+        if (pdu_length < proc_bytes + AVTP_COMMON_HEADER_LEN) {
+            continue;
+        }
         subtype = Avtp_CommonHeader_GetSubtype((Avtp_CommonHeader_t*)cf_pdu);
         if (subtype == AVTP_SUBTYPE_TSCF){
+            if (pdu_length < proc_bytes + AVTP_TSCF_HEADER_LEN) {
+                continue;
+            }
             proc_bytes += AVTP_TSCF_HEADER_LEN;
             msg_length = Avtp_Tscf_GetStreamDataLength((Avtp_Tscf_t*)cf_pdu);
         } else {
+            if (pdu_length < proc_bytes + AVTP_NTSCF_HEADER_LEN) {
+                continue;
+            }
             proc_bytes += AVTP_NTSCF_HEADER_LEN;
             msg_length = Avtp_Ntscf_GetNtscfDataLength((Avtp_Ntscf_t*)cf_pdu);
+        }
+
+        // The packet has to hold at least a complete ACF GPC header
+        if (pdu_length < proc_bytes + AVTP_GPC_HEADER_LEN) {
+            continue;
         }
 
         // Check if the control packet payload is a ACF GPC.
@@ -156,9 +175,17 @@ int main(int argc, char *argv[])
         // Parse the GPC Packet and print contents on the STDOUT
         gpc_code = Avtp_Gpc_GetGpcMsgId((Avtp_Gpc_t*)acf_pdu);
         acf_msg_length = Avtp_Gpc_GetAcfMsgLength((Avtp_Gpc_t*)acf_pdu);
+        // The message has to lie within the received packet
+        if (acf_msg_length * 4 < AVTP_GPC_HEADER_LEN ||
+            acf_msg_length * 4 > pdu_length - proc_bytes) {
+            fprintf(stderr, "Invalid ACF message length\n");
+            continue;
+        }
         if (acf_msg_length * 4 <= MAX_MSG_SIZE) {
             recd_msg = (char *) acf_pdu + AVTP_GPC_HEADER_LEN;
-            printf("%s : GPC Code %ld\n", recd_msg, gpc_code);
+            // The message is not necessarily null-terminated
+            printf("%.*s : GPC Code %ld\n",
+                   (int)(acf_msg_length * 4 - AVTP_GPC_HEADER_LEN), recd_msg, gpc_code);
         }
     }
 
